@@ -28,7 +28,7 @@ CHECKS = {
             'text and hold the same visible tokens in the same order.',
             'Zero-width placeholders may move (that is how claiming works).',
             'deterministic simulation: seeded non-edit call sequences, text/visible-token equality after every step'),
-    'C05': (['docsim'], 'exploration', 'DESIGN.md §6 C05, §4 I-tree',
+    'C05': (['docsim', 'exprsim'], 'exploration', 'DESIGN.md §6 C05, §4 I-tree',
             'Full operation mix with a bias towards editing through recently inserted children; after every step the generic walker (children '
             'enumerated from field descriptors) checks store membership, span nesting/order, first/last token coincidence, leaf uniqueness and that '
             'every significant token is a leaf, on the document and on every popped / copied / constructed node (self-contained when it enters the pool).',
